@@ -95,6 +95,19 @@ def run_translator():
     return rc == 0, log
 
 
+def run_translator2():
+    """Translator v2 (byte-slice code with loops) -> Gen/Gen2.v. Run separately from v1 so that a
+    function leaving the v2 subset can only affect the properties that declare tie2 theorems."""
+    ok, log = build_translator()
+    if not ok:
+        return False, "translator build failed:\n" + log
+    tmp = os.path.join(BUILD, "gen_v1_scratch.v")
+    rc, log = sh([os.path.join(BUILD, "translator"), "-repo", REPO, "-out", tmp,
+                  "-out2", os.path.join(COQ, "theories", "Gen", "Gen2.v"),
+                  "-manifest2", os.path.join(BUILD, "gen2_manifest.json")], env=GOENV, timeout=300)
+    return rc == 0, log
+
+
 def coq_makefile():
     """(Re)generate _CoqProject (all .v under theories/) and the Makefile."""
     files = sorted(os.path.relpath(p, COQ) for p in glob.glob(os.path.join(COQ, "theories", "**", "*.v"), recursive=True))
@@ -426,6 +439,20 @@ def standard_check(prop, tier, custom=None):
                 run.oblige("coqchk re-check of GoSecs.Properties.%s (axioms: %s)" % (pid, ax), rc == 0, out[-3000:])
                 if rc == 0 and ax not in ("<none>", "?"):
                     run.trusted.append("coqchk axiom summary: " + ax)
+        # tie2: functions REGENERATED by translator v2 and bridged to this property's model
+        for fam in prop.get("tie2", []):
+            ok2, log2 = run_translator2() if gen_ok else (False, "Gen.v not generated")
+            refused = [l for l in log2.splitlines() if "REFUSED" in l]
+            if ok2:
+                ok2, log2 = coq_make(["theories/Properties/%s.vo" % fam])
+            if ok2:
+                r2 = coq_check_props(fam + ".v")
+                for th in r2["theorems"]:
+                    run.oblige("tie2 " + th + " (function regenerated from the source = model function)", r2["ok"], r2["log"])
+                if r2["bad_axioms"]:
+                    run.oblige("tie2 %s: only library axioms" % fam, False, "unexpected axioms: %s" % r2["bad_axioms"])
+            else:
+                run.oblige("tie2 %s: Gen2.v regenerated and bridge lemmas re-checked" % fam, False, "\n".join(refused) + "\n" + log2)
         drv = prop.get("driver")
         drv_ok = False
         if drv and gen_ok:
